@@ -107,7 +107,8 @@ def generate(rng, seed, part):
         elif r < 0.72:
             ops.append({"op": "normalize", "inplace": rng.random() < 0.5, "percent": rng.random() < 0.4})
         elif r < 0.78 and ndim == 2:
-            ops.append({"op": "partial_normalize", "axis": rng.choice([0, 1]), "inplace": rng.random() < 0.5})
+            ops.append({"op": "partial_normalize", "axis": rng.choice([0, 1]), "inplace": rng.random() < 0.5,
+                        "by_name": rng.random() < 0.4})
         elif r < 0.88 and nxt_entry < len(entries):
             ops.append({"op": "fill", "i": nxt_entry})
             nxt_entry += 1
@@ -388,7 +389,14 @@ def execute(plan, ctx):
         elif o == "partial_normalize":
             if ndim != 2:
                 continue
-            ok, res = attempt(h.partial_normalize, op["axis"], inplace=op["inplace"])
+            axis_arg = op["axis"]
+            if op.get("by_name"):
+                # the axis addressed by its name (given by the user after construction), positionally or as keyword
+                h.axis_names = ("first", "second")
+                axis_arg = h.axis_names[op["axis"]]
+                ctx.probe("axis_by_name")
+                pre = snap(h)
+            ok, res = attempt(h.partial_normalize, axis_arg, inplace=op["inplace"])
             ctx.ev("node", f"partial_normalize:{op['axis']}:{op['inplace']}", None, "ok" if ok else exc_tag(res))
             ctx.abstract(o, op["axis"], op["inplace"], pre_dtype, ok)
             if not ok:
